@@ -208,6 +208,32 @@ class Outcome(object):
 QUICK_TIMEOUT_MS = 300
 
 
+def split_goal(g, depth=0):
+    """split a goal into conjuncts (through And, Implies(g, And), ForAll(And), If-chains are kept)"""
+    if depth > 6:
+        return [g]
+    if z3.is_and(g):
+        out = []
+        for ch in g.children():
+            out.extend(split_goal(ch, depth + 1))
+        return out
+    if z3.is_implies(g):
+        a, b = g.children()
+        parts = split_goal(b, depth + 1)
+        if len(parts) > 1:
+            return [z3.Implies(a, p) for p in parts]
+        return [g]
+    if z3.is_quantifier(g) and g.is_forall() and g.num_patterns() == 0:
+        n = g.num_vars()
+        vs = [z3.Const(g.var_name(i) + "!s", g.var_sort(i)) for i in range(n)]
+        body = z3.substitute_vars(g.body(), *reversed(vs))
+        parts = split_goal(body, depth + 1)
+        if len(parts) > 1:
+            return [z3.ForAll(vs, p) for p in parts]
+        return [g]
+    return [g]
+
+
 def feasible(pc):
     """cheap pruning of infeasible paths (unknown counts as feasible)"""
     s = z3.Solver()
@@ -246,7 +272,13 @@ class Exec(object):
     def oblige(self, st, name, goal, kind, info=None):
         goal = tobool(goal) if isinstance(goal, (VBool, bool)) else goal
         full = "%s.%s" % (self.prefix, name)
-        self.obligations.append(Obligation(full, kind, list(st.pc), goal, info))
+        pc = list(st.pc)
+        parts = split_goal(goal)
+        for k, g in enumerate(parts):
+            inf = dict(info or {})
+            if len(parts) > 1:
+                inf["conjunct"] = k
+            self.obligations.append(Obligation(full, kind, pc, g, inf))
         st.assume(goal)
 
     def line(self, node):
@@ -478,6 +510,9 @@ class Exec(object):
         tag = "inv%d" % ordn
         S0 = SpecCtx(self, st, self.entry_heap, {"pre": _snapshot(st)})
         pre_snap = _snapshot(st)
+        for nm_, ty_ in (spec.get("types") or {}).items():
+            if nm_ in st.env:
+                st.env[nm_] = sym.coerce(st.env[nm_], ty_)
         self.oblige(st, tag + ".init", inv(SpecCtx(self, st, self.entry_heap, {"pre": pre_snap})), "inv-init")
         st = st.fork()
         self._havoc(st, node, spec)
@@ -525,6 +560,9 @@ class Exec(object):
 
         def ctx(s_, it):
             return SpecCtx(self, s_, self.entry_heap, {"it": VInt(it), "seq": seq, "pre": pre_snap})
+        for nm_, ty_ in (spec.get("types") or {}).items():
+            if nm_ in st.env:
+                st.env[nm_] = sym.coerce(st.env[nm_], ty_)
         self.oblige(st, tag + ".init", inv(ctx(st, z3.IntVal(0))), "inv-init")
         st = st.fork()
         tgt_names = _target_names(node.target)
@@ -1657,7 +1695,7 @@ def list_concat(a, b):
 
 
 def _no_elem(i):
-    raise Unsupported("element of an empty list")
+    return sym.VBottom
 
 
 def type_of(v):
